@@ -96,3 +96,33 @@ prop("C06", quick={"runs": 8000}, thorough={"runs": 100000000, "budget_s": 600},
             "C06.R4 background build context: no Err, no deadline, Done never fires, values visible", "C06.R5 SkipRead rebuilds and stores"],
      probes=["builder_communicated_ttl", "background_build_ctx_observed", "background_build_with_cancelled_caller_ctx",
              "stale_refresh_write", "lone_skipread_get"])
+
+BE_RULE = ("Backend scenarios (keys incl. empty, 1-byte, 300-byte, binary, common-prefix and constructed xxhash64 collision "
+           "families; unique value tokens; TTL modes default / unlimited / per-call positive / negative; SkipRead) are drawn from the "
+           "seeded PRNG and executed on ShardedMap, SyncMap and ShardedMapOf under the simulated clock. ")
+prop("C07", quick={"runs": 16000}, thorough={"runs": 100000000, "budget_s": 600},
+     rule=BE_RULE + "One client issues 1-40 operations with clock jumps from ns to days; each result is compared with a reference "
+     "map with per-entry expiry intervals. Non-trivial: >= 2 operations; distinct = distinct (scenario, schedule signature).",
+     rules=["C07.<op>: Read/Load/Delete/Len/Walk results equal the reference map's; ExpireAll expires everything incl. never-expiring; "
+            "expired reads carry value and expiry instant"],
+     probes=["read:nil", "read:notfound", "read:expired", "delete:nil", "delete:notfound", "expireAll", "deleteAll", "walk", "len", "load", "store"])
+prop("C10", quick={"runs": 16000}, thorough={"runs": 100000000, "budget_s": 600},
+     rule=BE_RULE + "Root-driven (no concurrency): 1-6 writes with config TTL {default, unlimited, 1ns..10y}, context TTL {none, 0, +-1ns..+-10y}, "
+     "ExpirationJitter {disabled, default, values in (0,1]}, jitter draw {0, 0.5, 1-2^-53, PRNG}; after each write Walk gives ExpireAt, the clock "
+     "is moved to ExpireAt-1ns and ExpireAt+1ns. Non-trivial: at least one write; distinct = distinct scenarios.",
+     rules=["C10.R1 ExpireAt within [t+T-|T|J/2, t+T+|T|J/2] (exactly t+T without jitter)", "C10.R2 never expires with UnlimitedTTL and no context TTL",
+            "C10.R3 fresh 1ns before, ErrExpired 1ns after the reported instant", "C10.R4 ErrExpired.ExpiredAt == Walk's ExpireAt"],
+     probes=["never_expiring_write", "jitter_disabled_write", "jittered_write", "flip_probed", "born_expired"])
+prop("C11", quick={"runs": 8000}, thorough={"runs": 100000000, "budget_s": 600},
+     rule=BE_RULE + "Root-driven writes (never-expiring, fresh, recently expired, long expired) and clock jumps; the real janitor goroutine runs as a "
+     "scheduled task whenever the simulated clock crosses DeleteExpiredJobInterval; after every jump that contained a cycle the surviving key set is "
+     "compared with the reference map. Non-trivial: at least one cleanup cycle ran; distinct = distinct (scenario, schedule).",
+     rules=["C11.R1 wrongly-deleted (never-expiring / fresh / recently expired entry removed)", "C11.R2 not-deleted (long-expired entry kept although the scan is documented to run)"],
+     probes=["janitor_met_never_expiring_entry", "janitor_met_fresh_entry", "janitor_met_recently_expired_entry", "janitor_deleted_long_expired_entry",
+             "unlimited_cache_with_explicit_ttl_cycle"])
+prop("C12", quick={"runs": 6000}, thorough={"runs": 100000000, "budget_s": 600},
+     rule=BE_RULE + "Root-driven fill of 1-400 entries around CountSoftLimit, access histories (reads at distinct simulated instants, rewrites), "
+     "EvictionNeeded scripts, EvictFraction in (0,1], three strategies; the real janitor/eviction runs as a scheduled task. Non-trivial: at least one cycle.",
+     rules=["C12.R1 no trigger -> nothing removed", "C12.R2 amount (fraction / down to CountSoftLimit*(1-f) within one entry)",
+            "C12.R3 max rank(removed) <= min rank(kept) under the strategy, ranks from the harness access log", "C12.R4 cache_evict equals entries removed"],
+     probes=["cycle_without_trigger", "cycle_count_breach", "cycle_eviction_needed", "order_checked"])
